@@ -139,3 +139,12 @@ func drawWeighted(t *rapid.T, label string, ws []weighted) string {
 	}
 	return ws[len(ws)-1].name
 }
+
+// repeatSteps runs body as the single action of rapid's state-machine mode, so that every
+// step is a group of the bit stream which the shrinker can delete as a whole. The number of
+// steps is geometric with the given mean.
+func repeatSteps(rt *rapid.T, avg int, body func(i int)) {
+	mustSetFlag("rapid.steps", strconv.Itoa(avg))
+	i := 0
+	rt.Repeat(map[string]func(*rapid.T){"step": func(*rapid.T) { body(i); i++ }})
+}
